@@ -149,7 +149,7 @@ def explore(driver, cfg, deviations=0, max_states=None, max_seconds=None, closur
     (branches on which they fire are cut, as documented in DESIGN.md section 6)."""
     res = Result()
     t0 = PERF()
-    rnd = random.Random(seed)
+    rnd = random.Random(int(os.environ.get('VERIF_SHUFFLE') or seed or 0))
     w = driver.build(cfg)
     w.drain_observations()
     root = canon_world(w, driver.extra_key(w, cfg))
@@ -181,8 +181,10 @@ def explore(driver, cfg, deviations=0, max_states=None, max_seconds=None, closur
         raw = zlib.decompress(blob)
         w0 = W.restore(raw)
         succ = successors(w0, cfg, driver)
-        if seed:
-            rnd.shuffle(succ)
+        if os.environ.get('VERIF_SHUFFLE'):
+            rnd.shuffle(succ)   # self-test only: a different visiting order must not change any canonical key
+        # NOTE: the successor order is never permuted: the sparse closure set and the parent pointers must not
+        # depend on VERIF_SEED (the seed only permutes the order in which configurations are scheduled)
         succ = [(ev, cost) for ev, cost in succ if used0 + cost <= deviations]
         for pos, (ev, cost) in enumerate(succ):
             used = used0 + cost
@@ -285,7 +287,10 @@ def run_batches(batches, workers=None):
     for b, (_driver, configs, kwargs_of) in enumerate(batches):
         for i, cfg in enumerate(configs):
             jobs.append((b, i, cfg, kwargs_of(cfg)))
-    # costly configurations first
+    # costly configurations first; VERIF_SEED permutes the configurations of equal cost
+    sd = int(os.environ.get('VERIF_SEED', '0') or 0)
+    if sd:
+        random.Random(sd).shuffle(jobs)
     jobs.sort(key=lambda j: -j[2].get('cost', 1))
     workers = workers or min(len(jobs), int(os.environ.get('VERIF_WORKERS', '16'))) or 1
     results = [[None] * len(b[1]) for b in batches]
